@@ -122,6 +122,9 @@ def c01_jobs(tier):
             sim("c01-seq-cycles", "c02", params={"len": 3}, require_nontrivial=False)]
     jobs.append(sim("c01-volume", "c15", require_nontrivial=False))
     jobs.append(sim("c01-detached", "c11", require_nontrivial=False))
+    # deadline modifications of every shape (same deadline, duplicate IDs, dead IDs in front): the
+    # unacknowledged message must still come back
+    jobs.append(sim("c01-modify-grid", "c05", require_nontrivial=False))
     if tier == "thorough":
         jobs.append(conc("c01-conc-h2", "c01", transport="h2"))
         jobs.append(asan_mt("c01-asan-mt", "conc", params={"profile": "c01"}, crash_property="C01"))
